@@ -318,13 +318,51 @@ def minmax_cases(*values, limit=6):
     return out
 
 
-def identity_holds(lhs, rhs):
-    """lhs == rhs as normal forms, or under every consistent max/min case split."""
+def _case_feasible(m, conds):
+    """can the max/min case `m` (atom -> the argument it takes) occur under the comparison literals of `conds`?
+    Decided in the linear domain; anything that is not linear counts as possible."""
+    from . import linear
+    try:
+        cons = []
+        for c, pol in literals(conds):
+            a = c.single_atom() if isinstance(c, Poly) else None
+            if a is None or not is_app(a, ('lt', 'le', 'eq')) and not (is_app(a, 'ne') and not pol):
+                continue
+            try:
+                alts = linear.from_condition(c, pol)
+            except linear.NotLinear:
+                continue
+            if len(alts) == 1:
+                cons += alts[0]
+        for a, chosen in m.items():
+            if not (a[0] == 'app' and a[1] in ('max', 'maximum', 'min', 'minimum') and len(a[2]) == 2):
+                continue
+            x, y = a[2]
+            other = y if chosen == x else x
+            big, small = (chosen, other) if a[1] in ('max', 'maximum') else (other, chosen)
+            try:
+                # a tie belongs to the case that takes the first argument (either choice gives the same number there)
+                if chosen == x:
+                    cons.append(linear.le(linear.linearise(small), linear.linearise(big)))
+                else:
+                    cons.append(linear.lt(linear.linearise(small), linear.linearise(big)))
+            except linear.NotLinear:
+                continue
+        return linear.satisfiable(cons)
+    except Exception:
+        return True
+
+
+def identity_holds(lhs, rhs, conds=None):
+    """lhs == rhs as normal forms, or under every consistent max/min case split (cases that contradict the path conditions
+    `conds`, when given, are not considered)."""
     if lhs == rhs:
         return True
     cases = minmax_cases(lhs, rhs)
     if not cases or cases == [{}]:
         return False
+    if conds:
+        cases = [m for m in cases if _case_feasible(m, conds)] or cases
     for m in cases:
         a, b = nf.subst_value(lhs, m), nf.subst_value(rhs, m)
         # nested max/min may reappear after substitution: one more round
